@@ -334,11 +334,6 @@ def one_program(ctx, prog, rng, workdir, tag, has_literals, depth=0, fixed=None)
             bad = ('fortran-return-value', f'Python returned {rp[1]!r}, Fortran {rf[1]!r}')
         elif ob['ps'] != ob['fs'] or ob['pi'] != ob['fi']:
             bad = ('fortran-status-iterations', f'statuses {ob["ps"]} / {ob["fs"]}, iterations {ob["pi"]} / {ob["fi"]}')
-        if bad and o['entry'] == 'solve' and o['errors'] != 'raise' and rp[0] == 'exc' and rp[1] == 'IndexError' and rf[1] == 'IndexError' and bad[0] == 'fortran-values':
-            # both back-ends raise IndexError for the first period, but the Fortran loop had already gone on to later periods
-            if depth == 0:
-                ctx.violation('fortran-solve-continues-after-index-error', f'{o["entry"]}({ {k: v for k, v in o.items() if k != "entry"} }) on {script!r}: {bad[1]}', c2)
-            continue
         if bad:
             if has_literals and depth == 0:
                 return literal_fallback(ctx, prog, rng, workdir, tag, c2, f'{bad[0]}: {bad[1]}')
